@@ -213,9 +213,21 @@ def main():
                 rec["verdict"] = "CANARY_NOT_APPLICABLE"
                 json.dump(rec, open(out, "w"))
                 return
+        rec["engine"] = ob.engine_label()
+        if ob.kind == "smt":
+            t0 = time.process_time()
+            r = ob.smt()
+            rec.update(r)
+            rec.setdefault("cpu_s", round(time.process_time() - t0, 2))
+            rec.setdefault("paths", 0)
+            if "cex_args" in r:
+                rec["cex"] = {k: enc(v) for k, v in r.pop("cex_args").items()}
+                rec.pop("cex_args", None)
+            rec["wall_s"] = round(time.time() - t_wall, 2)
+            json.dump(rec, open(out, "w"))
+            return
         teardown = ob.setup() if ob.setup else None
         stats = collections.Counter()
-        rec["engine"] = ob.engine_label()
         if twin and canary is None:
             msgs, cap, cpu = run(ob, True, min(timeout, 60.0), collections.Counter())
             states = [m.state.name for m in msgs]
